@@ -43,6 +43,8 @@ type vc06Stub struct {
 	script  map[string][]vc06Answer // lower-case name without trailing dot -> answers by epoch
 	epoch   int
 	queries []string // "name/qtype" since the last reset
+	rawq    []string // the question names as sent (case kept), since the last reset
+	lastRaw []string // rawq as of the last takeQueries
 }
 
 func (s *vc06Stub) setScript(m map[string][]vc06Answer) {
@@ -59,6 +61,7 @@ func (s *vc06Stub) setEpoch(e int) {
 	defer s.mu.Unlock()
 	s.epoch = e
 	s.queries = nil
+	s.rawq = nil
 }
 
 func (s *vc06Stub) takeQueries() []string {
@@ -66,7 +69,20 @@ func (s *vc06Stub) takeQueries() []string {
 	defer s.mu.Unlock()
 	q := s.queries
 	s.queries = nil
+	s.lastRaw = s.rawq
+	s.rawq = nil
 	return q
+}
+
+// takenNames returns, hex encoded, the question names (as sent) of the calls the last takeQueries returned.
+func (s *vc06Stub) takenNames() []string {
+	s.mu.Lock()
+	defer s.mu.Unlock()
+	out := []string{}
+	for _, n := range s.lastRaw {
+		out = append(out, hex.EncodeToString([]byte(n)))
+	}
+	return out
 }
 
 func (s *vc06Stub) serve() {
@@ -115,6 +131,7 @@ func (s *vc06Stub) answer(q []byte) []byte {
 
 	s.mu.Lock()
 	s.queries = append(s.queries, fmt.Sprintf("%s/%d", name, qtype))
+	s.rawq = append(s.rawq, strings.Join(labels, "."))
 	var ans vc06Answer
 	found := false
 	if sc, ok := s.script[name]; ok && len(sc) > 0 {
@@ -260,6 +277,7 @@ type vc06Res struct {
 	Lookup  bool     `json:"lookup"`
 	Panic   string   `json:"panic,omitempty"`
 	Queries []string `json:"queries"` // DNS questions seen during the call
+	QNames  []string `json:"qnames"`  // hex: their names as sent
 	// oracle values of the external functions on this input (same epoch)
 	ParseWhole  string       `json:"parse_whole"` // hex of net.ParseIP(s) ("" = nil)
 	SplitOk     bool         `json:"split_ok"`
@@ -292,6 +310,7 @@ func vc06Observe(c *RegConfig, stub *vc06Stub, cs vc06Case) vc06Res {
 		r.Out, r.Lookup = vc06Hex(out), lk
 	}()
 	r.Queries = stub.takeQueries()
+	r.QNames = stub.takenNames()
 	if r.Queries == nil {
 		r.Queries = []string{}
 	}
